@@ -167,6 +167,8 @@ func c03(tier string) []*explore.Scenario {
 	}
 	out = append(out, apiSeqs("C03", tier)...)
 	out = append(out, handlerSeqs("C03", tier)...)
+	// finer granularity (a scheduling point after every Unlock as well) on the small core scenarios
+	out = append(out, fineGrained(c03Early(2, 1, 64, "concurrent", 1))...)
 	return out
 }
 
